@@ -7,7 +7,7 @@ ran = sys.argv[6] if len(sys.argv) > 6 else ''
 src = '/tmp/seed/%s' % prop
 dst = '/verif/seeded/%s' % sid
 os.makedirs(dst, exist_ok=True)
-shutil.copy('%s/patch%s.diff' % (src, k), dst + '/patch.diff')
+shutil.copy(os.environ.get('PATCH') or '%s/patch%s.diff' % (src, k), dst + '/patch.diff')
 shutil.copy('%s/demo%s.py' % (src, k), dst + '/demo.py')
 if os.path.exists('%s/notes%s.md' % (src, k)):
     shutil.copy('%s/notes%s.md' % (src, k), dst + '/notes.md')
